@@ -32,8 +32,7 @@ exactly zero or not below it -/
 def StepExact (tol : Rat) (M : Mat) (i j : Nat) : Prop :=
   (small tol (M.get i (j - 1)).conj = true → (M.get i (j - 1)).conj = 0) ∧
   (small tol (M.get i j).conj = true → (M.get i j).conj = 0) ∧
-  (realish tol (M.get i (j - 1)).conj (M.get i j).conj = true →
-    (M.get i (j - 1)).conj.im = 0 ∧ (M.get i j).conj.im = 0) ∧
+  RealExact tol (M.get i (j - 1)).conj (M.get i j).conj ∧
   (big tol (M.get i j).conj = false → M.get i j = 0)
 
 /-- the exact regime along the run of `colLayer` (follows its recursion) -/
